@@ -23,9 +23,16 @@ from harness.vlib import coq_bool, coq_list, coq_str, coq_z
 PRELUDE = '''\
 import dataclasses
 from dataclasses import field, InitVar, KW_ONLY
-from typing import Any, ClassVar, List, Optional
-from mashumaro import DataClassDictMixin, pass_through
+from typing import Annotated, Any, ClassVar, Final, List, Optional, Union
+from mashumaro import DataClassDictMixin, field_options, pass_through
 from mashumaro.config import BaseConfig
+from mashumaro.types import Alias
+
+type OptInt = int | None
+type OptFloat = float | None
+type OptStr = None | str
+type OptBool = bool | None
+type OptInts = List[int] | None
 
 _PRE = {}
 _ALLOC = [0]
@@ -55,25 +62,33 @@ def _ints(v):
     return [int(x) for x in v]
 
 
-TYPES = {
-    "int": ("CInt", int, False, False),
-    "float": ("CFloat", float, False, False),
-    "str": ("CStr", str, False, False),
-    "bool": ("CBool", bool, False, False),
-    "Any": ("CId", None, True, True),
-    "Optional[int]": ("CInt", int, True, False),
-    "Optional[float]": ("CFloat", float, True, False),
-    "Optional[str]": ("CStr", str, True, False),
-    "Optional[bool]": ("CBool", bool, True, False),
-    "List[int]": ("CList", _ints, False, False),
-    "Optional[List[int]]": ("CList", _ints, True, False),
-}
-PASSABLE = ("int", "Optional[int]", "Optional[float]")     # types generated with deserialize=pass_through too
-LISTS = ("List[int]", "Optional[List[int]]")
+_CONV = {"int": ("CInt", int), "float": ("CFloat", float), "str": ("CStr", str), "bool": ("CBool", bool),
+         "List[int]": ("CList", _ints)}
+_PEP695 = {"int": "OptInt", "float": "OptFloat", "str": "OptStr", "bool": "OptBool", "List[int]": "OptInts"}
+# spelling -> (conversion kind in Coq, python conversion, nullable AS THE FIELD BLOCK SEES IT, identity unpacker,
+#              nullable behind a wrapper: the unpacker expression itself maps None to None)
+TYPES = {"Any": ("CId", None, True, True, False)}
+BASE = {"Any": "Any"}
+SPELLING_CLASS = {"Any": "any"}
+for _b, (_k, _f) in _CONV.items():
+    for _sp, _cls in [(_b, "plain"),
+                      ("Optional[%s]" % _b, "optional"), ("%s | None" % _b, "optional"),
+                      ("None | %s" % _b, "none-first"), ("Union[None, %s]" % _b, "none-first"),
+                      ('Annotated[Optional[%s], "meta"]' % _b, "wrapped"), ('Annotated[None | %s, "meta"]' % _b, "wrapped"),
+                      ("Final[Optional[%s]]" % _b, "wrapped"), (_PEP695[_b], "wrapped")]:
+        TYPES[_sp] = (_k, _f, _cls in ("optional", "none-first"), False, _cls == "wrapped")
+        BASE[_sp] = _b
+        SPELLING_CLASS[_sp] = _cls
+PASSABLE = ("int", "Optional[int]", "Optional[float]", "None | int")     # also generated with deserialize=pass_through
+LISTS = tuple(t for t in TYPES if BASE[t] == "List[int]")
 
 
 def base_of(tname):
-    return tname[9:-1] if tname.startswith("Optional[") else tname
+    return BASE[tname]
+
+
+def type_nullable(tname):
+    return TYPES[tname][2] or TYPES[tname][4]
 
 
 NAMES = ["a", "b", "c", "e", "f", "g", "h", "k", "value", "kwargs", "d", "cls", "_p", "m", "n"]
@@ -103,7 +118,7 @@ def sample_default(rng, tname, cat=None):
     """a default for a field of that type: falsy non-None / truthy / big / None"""
     if cat is None:
         r = rng.random()
-        none_p = 0.22 if TYPES[tname][2] else 0.1        # None under a non-Optional type makes it nullable too
+        none_p = 0.22 if type_nullable(tname) else 0.1        # None under a non-Optional type makes it nullable too
         cat = "none" if r < none_p else rng.choice(["falsy", "falsy", "truthy", "truthy", "big"])
     if cat == "none":
         return None
@@ -123,7 +138,7 @@ def sample_input_value(rng, m):
     # null is sent to a field that is nullable by type or by a None default; not when that default is only the
     # inherited class attribute the eager mixin build cannot see (known finding override-inherits-class-default:
     # there the null would be converted and fail with InvalidFieldValue, which this model does not cover)
-    nullable = TYPES[tname][2] or (m["def"] == ("val", None) and not m["inherits_class_default"])
+    nullable = m["sem_null"] or (m["def"] == ("val", None) and not m["inherits_class_default"])
     if nullable and rng.random() < 0.35:
         return None
     dv = m["def"][1] if m["def"][0] == "val" else None
@@ -154,6 +169,46 @@ def nonnull_input(rng, m):
         if v is not None:
             return v
     return 1
+
+
+def pick_type(rng):
+    """type spelling of a random field: the spelling classes are weighted, the base type is uniform"""
+    r = rng.random()
+    cls = "plain" if r < 0.35 else "any" if r < 0.45 else "optional" if r < 0.65 else "none-first" if r < 0.77 else "wrapped"
+    return rng.choice([t for t in TYPES if SPELLING_CLASS[t] == cls])
+
+
+def pep695_probe():
+    """known finding C07/pep695-alias-name-unbound, reproduced in every run (oracle only: the Coq model does not
+    contain this defect, so the program takes no part in the correspondence)"""
+    return {"mixin": True, "lazy": False, "plain_base": None, "nba": False, "aliases": {}, "oracle_only": True,
+            "classes": [{"name": "C0", "kw_only": False, "slots": False,
+                         "members": [{"name": "a", "kind": "normal", "type": "OptInt", "rhs": None}]}]}
+
+
+def add_aliases(rng, prog, force=False):
+    """alias dimension: up to two normal members get an alias through field_options, Annotated[.., Alias] or
+    Config.aliases; Config.allow_deserialization_not_by_alias on or off"""
+    prog["nba"] = rng.random() < 0.5
+    prog["aliases"] = {}
+    normal = []
+    allnames = []
+    for cls in prog["classes"]:
+        for m in cls["members"]:
+            if m["name"] not in allnames:
+                allnames.append(m["name"])
+            if m["kind"] == "normal" and m["name"] not in normal:
+                normal.append(m["name"])
+    if not normal or not (force or rng.random() < 0.4):
+        return
+    for name in rng.sample(normal, min(len(normal), rng.choice([1, 2]))):
+        key = "al_" + name
+        others = [n for n in allnames if n != name and n != "_" and n not in normal]   # ClassVar / InitVar names
+        if others and rng.random() < 0.1:
+            key = rng.choice(others)            # the alias is the name of another member
+        if key in [k for _, k in prog["aliases"].values()]:
+            continue
+        prog["aliases"][name] = (rng.choice(["field_options", "annotated", "config"]), key)
 
 
 def gen_program(rng, nmax):
@@ -199,17 +254,22 @@ def gen_program(rng, nmax):
                 m = {"name": name, "kind": "classvar", "value": rng.choice([None, rng.randrange(50, 59)]),
                      "has_value": rng.random() < 0.8}
             else:
-                tname = rng.choice(list(TYPES))
+                tname = pick_type(rng)
                 m = {"name": name, "kind": "normal", "type": tname, "rhs": None}
                 want_default = mi >= cut or rng.random() < 0.15
+                if tname in _PEP695.values():
+                    # a field typed by a PEP 695 alias always gets a default here: without one an absent key hits the
+                    # known finding C07/pep695-alias-name-unbound (NameError instead of MissingField), which is
+                    # probed separately in every run (pep695_probe)
+                    want_default = True
                 if override and base.get("kind") == "normal" and base.get("rhs") and base["rhs"][0] == "plain" \
-                        and rng.random() < 0.25:
+                        and tname not in _PEP695.values() and rng.random() < 0.25:
                     # re-annotation without a value of a member whose base has a class-level default
                     cls["members"].append(m)
                     continue
                 use_field = rng.random() < 0.45
                 if tname in LISTS and want_default:
-                    use_field = tname == "List[int]" or rng.random() < 0.6
+                    use_field = not type_nullable(tname) or rng.random() < 0.6
                 if use_field:
                     fd = {"default": MISSING, "factory": None, "init": rng.random() >= 0.15,
                           "kw_only": rng.choice([None, None, True, False]),
@@ -233,29 +293,39 @@ def gen_program(rng, nmax):
             if m["kind"] != "sentinel" and not any(x["name"] == m["name"] for x in inherited):
                 inherited.append(m)
         prog["classes"].append(cls)
+    add_aliases(rng, prog)
     return prog
 
 
 def spectrum_programs(rng):
-    """systematic part of the generator: every field type x default region (falsy non-None / truthy / big / None /
-    factory) x converting or pass_through unpacker occurs in every run, spread over classes of <= 8 defaulted fields
-    (declaration form, kw_only-ness and class variant vary); the inputs are all key subsets like everywhere else,
-    so each field meets absent / explicit null / present values many times"""
+    """systematic part of the generator, present in every run: every type spelling (plain, Optional[X], X | None,
+    None | X, Union[None, X], Annotated / Final / PEP 695 wrappers of an Optional, Any) occurs with two different
+    default regions (falsy non-None / truthy / big / None / factory), the pass_through variants too; classes of <= 8
+    defaulted fields, rotating over eager mixin / plain dataclass + codec / lazy mixin / two classes; every program
+    has one or two aliased fields (field_options, Annotated Alias, Config.aliases), half of them with
+    allow_deserialization_not_by_alias.  Inputs are all subsets of the key universe like everywhere else, so each
+    field meets absent / explicit null / present under alias key / under name / both, many times"""
     fields = []
     for tname in TYPES:
-        cats = ["factory"] + (["none"] if TYPES[tname][2] else []) if tname in LISTS else ["falsy", "truthy", "big", "none"]
+        if tname in LISTS:
+            cats = ["factory"] + (["none"] if type_nullable(tname) else [])
+        else:
+            cats = rng.sample(["falsy", "truthy", "big", "none"], 2)
+            if "falsy" not in cats and type_nullable(tname) and rng.random() < 0.5:
+                cats[0] = "falsy"
         for cat in cats:
-            for passthrough in ([False, True] if tname in PASSABLE else [False]):
-                fields.append((tname, cat, passthrough))
+            fields.append((tname, cat, False))
+        if tname in PASSABLE:
+            fields.append((tname, rng.choice(["falsy", "truthy", "none"]), True))
     rng.shuffle(fields)
     progs = []
-    for pi, k in enumerate(range(0, len(fields), 8)):
+    for pi, k in enumerate(range(0, len(fields), 7)):
         variant = pi % 4           # eager mixin / plain dataclass + codec / lazy mixin / eager mixin, two classes
         prog = {"mixin": variant != 1, "lazy": variant == 2, "plain_base": None, "classes": []}
         names = list(NAMES)
         rng.shuffle(names)
         members = []
-        for tname, cat, passthrough in fields[k:k + 8]:
+        for tname, cat, passthrough in fields[k:k + 7]:
             m = {"name": names.pop(), "kind": "normal", "type": tname, "rhs": None}
             form = "field" if (passthrough or cat == "factory") else rng.choice(["plain", "plain", "field"])
             if form == "plain":
@@ -271,11 +341,19 @@ def spectrum_programs(rng):
                                {"name": "C1", "kw_only": rng.random() < 0.5, "slots": False, "members": members[cutp:]}]
         else:
             prog["classes"] = [{"name": "C0", "kw_only": False, "slots": False, "members": members}]
+        add_aliases(rng, prog, force=True)
+        prog["sweep"] = True
+        prog["nba"] = pi % 2 == 0
+        # aliases go to semantically nullable fields first: that is where a null under the alias key matters
+        nullable_names = [m["name"] for m in members if type_nullable(m["type"])]
+        if nullable_names and not any(n in nullable_names for n in prog["aliases"]):
+            prog["aliases"][rng.choice(nullable_names)] = (
+                rng.choice(["field_options", "annotated", "config"]), "al_x")
         progs.append(prog)
     return progs
 
 
-def render_member(m):
+def render_member(m, aliases=None):
     if m["kind"] == "sentinel":
         return "    _: KW_ONLY"
     if m["kind"] == "initvar":
@@ -288,10 +366,21 @@ def render_member(m):
             return "    %s: ClassVar[Any] = %r" % (m["name"], m["value"])
         return "    %s: ClassVar[Any]" % m["name"]
     rhs = m["rhs"]
+    tname = m["type"]
+    mech = (aliases or {}).get(m["name"])
+    if mech and mech[0] == "annotated":
+        tname = "Annotated[%s, Alias(%r)]" % (tname, mech[1])
+    opts = {}
+    if mech and mech[0] == "field_options":
+        opts["alias"] = mech[1]
+        if rhs is None:
+            rhs = ("field", {"default": MISSING, "factory": None, "init": True, "kw_only": None, "pass": False})
+        elif rhs[0] == "plain":
+            rhs = ("field", {"default": rhs[1], "factory": None, "init": True, "kw_only": None, "pass": False})
     if rhs is None:
-        return "    %s: %s" % (m["name"], m["type"])
+        return "    %s: %s" % (m["name"], tname)
     if rhs[0] == "plain":
-        return "    %s: %s = %r" % (m["name"], m["type"], rhs[1])
+        return "    %s: %s = %r" % (m["name"], tname, rhs[1])
     fd = rhs[1]
     args = []
     if fd["default"] is not MISSING:
@@ -303,16 +392,21 @@ def render_member(m):
     if fd["kw_only"] is not None:
         args.append("kw_only=%r" % fd["kw_only"])
     if fd["pass"]:
-        args.append('metadata={"deserialize": pass_through}')
-    return "    %s: %s = field(%s)" % (m["name"], m["type"], ", ".join(args))
+        opts["deserialize"] = "pass_through"
+    if opts:
+        args.append("metadata=field_options(%s)" % ", ".join(
+            "%s=%s" % (k, v if k == "deserialize" else repr(v)) for k, v in opts.items()))
+    return "    %s: %s = field(%s)" % (m["name"], tname, ", ".join(args))
 
 
 def render(prog, with_mashumaro=True):
     """python source of the program; with_mashumaro=False gives the same classes without the mixin
     (used only to see whether Python itself accepts the layout)"""
     out = [PRELUDE if with_mashumaro else PRELUDE.replace(
-        "from mashumaro import DataClassDictMixin, pass_through\nfrom mashumaro.config import BaseConfig\n",
-        "class DataClassDictMixin: pass\nclass BaseConfig: pass\npass_through = object()\n")]
+        "from mashumaro import DataClassDictMixin, field_options, pass_through\nfrom mashumaro.config import BaseConfig\n"
+        "from mashumaro.types import Alias\n",
+        "class DataClassDictMixin: pass\nclass BaseConfig: pass\npass_through = object()\n"
+        "def field_options(**kw): return kw\ndef Alias(x): return x\n")]
     bases0 = []
     if prog["plain_base"]:
         pb = prog["plain_base"]
@@ -332,10 +426,18 @@ def render(prog, with_mashumaro=True):
         bases = [prev] if prev else bases0
         out.append("class %s%s:" % (cls["name"], "(%s)" % ", ".join(bases) if bases else ""))
         for m in cls["members"]:
-            out.append(render_member(m))
-        if prev is None and prog["lazy"]:
+            out.append(render_member(m, prog.get("aliases")))
+        cfg = []
+        if prog["lazy"]:
+            cfg.append("        lazy_compilation = True")
+        if prog.get("nba"):
+            cfg.append("        allow_deserialization_not_by_alias = True")
+        cal = {n: k for n, (mech, k) in prog.get("aliases", {}).items() if mech == "config"}
+        if cal:
+            cfg.append("        aliases = %r" % cal)
+        if prev is None and cfg:
             out.append("    class Config(BaseConfig):")
-            out.append("        lazy_compilation = True")
+            out += cfg
         prev = cls["name"]
     out.append("TARGET = %s" % prev)
     return "\n".join(out) + "\n"
@@ -388,7 +490,7 @@ def bfield_of(f):
     return (dflt_of(f.default, f.default_factory), bool(f.init), None if kw is MISSING else bool(kw))
 
 
-def analyse(mod, spec_types, timing):
+def analyse(mod, spec_types, timing, aliases=None, nba=False):
     """members of TARGET in typing.get_type_hints order: truth and builder facts for `timing`
     ('pre' = builder runs in __init_subclass__ before @dataclass, 'post' = after)"""
     import typing_extensions
@@ -452,17 +554,30 @@ def analyse(mod, spec_types, timing):
             odf = cls.__dict__.get("__dataclass_fields__", {}).get(name)
             m["df"] = bfield_of(odf) if odf is not None else None
         st = spec_types.get(name)
+        mech = (aliases or {}).get(name)
+        m["alias"] = mech[1] if (mech and kind == "normal") else None
+        m["nba"] = bool(nba)
         if kind == "normal" and st is not None:
             tname, passthrough = st
             m["type"] = tname
             m["conv"] = TYPES[tname][0]
             m["nullty"] = TYPES[tname][2]
+            m["unull"] = TYPES[tname][4]
+            if mech and mech[0] == "annotated" and tname != "Any":
+                # Annotated[T, Alias(..)] hides an Optional from the field block like any other wrapper
+                m["unull"] = m["unull"] or m["nullty"]
+                m["nullty"] = False
+            elif mech and mech[0] == "annotated":
+                m["nullty"] = False
+            m["sem_null"] = type_nullable(tname)
             m["ident"] = TYPES[tname][3] or passthrough
             m["pass"] = passthrough
         else:
             m["type"] = "int" if kind == "normal" else None     # the plain base member is `int`
             m["conv"] = "CInt" if kind == "normal" else "CId"
             m["nullty"] = False
+            m["unull"] = False
+            m["sem_null"] = False
             m["ident"] = False
             m["pass"] = False
         # feature used for known-finding signatures
@@ -504,11 +619,31 @@ def entries_of(prog, mod):
     return out
 
 
+ABSENT = object()
+
+
+def py_rd(m, d):
+    """the documented key rule: alias key; with allow_deserialization_not_by_alias the field name as fall-back when
+    the alias key is absent (a key holding null is present)"""
+    a = m.get("alias")
+    if a:
+        if a in d:
+            return d[a]
+        if m.get("nba") and m["name"] in d:
+            return d[m["name"]]
+        return ABSENT
+    return d[m["name"]] if m["name"] in d else ABSENT
+
+
+def key_of(m):
+    return m.get("alias") or m["name"]
+
+
 def is_factory_made(m, v, d):
     if type(v).__name__ == "Box":
         return True
     if m["def"] == ("fac",) and isinstance(v, list) and v == []:
-        return (not m["param"]) or m["name"] not in d
+        return (not m["param"]) or py_rd(m, d) is ABSENT
     return False
 
 
@@ -625,18 +760,20 @@ KIND = {"normal": "KNormal", "initvar": "KInitVar", "classvar": "KClassVar", "se
 
 
 def coq_member(m):
-    return "mkm %s %s %s %s %s %s %s %s %s %s %s %s" % (
+    return "mkm %s %s %s %s %s %s %s %s %s %s %s %s %s %s" % (
         coq_str(m["name"]), KIND[m["kind"]], coq_bool(m["field"]), coq_bool(m["param"]), coq_bool(m["kw"]),
         coq_dflt(m["def"]), "None" if m["anc"] is None else "(Some %s)" % coq_bfield(m["anc"]),
         coq_bool(m["own"]), coq_ns(m["ns"]), "None" if m["df"] is None else "(Some %s)" % coq_bfield(m["df"]),
-        coq_bool(m["nullty"]), coq_bool(m["ident"]))
+        coq_bool(m["nullty"]), coq_bool(m["ident"]),
+        "None" if not m.get("alias") else "(Some %s)" % coq_str(m["alias"]), coq_bool(m.get("unull", False)))
 
 
 def coq_lay(members, sigpos, sigkw):
-    return ("{| ly_L := [%s];\n     ly_kinds := [%s]; ly_sigpos := [%s]; ly_sigkw := [%s] |}" % (
+    nba = any(m.get("nba") for m in members)
+    return ("{| ly_L := [%s];\n     ly_kinds := [%s]; ly_nba := %s; ly_sigpos := [%s]; ly_sigkw := [%s] |}" % (
         ";\n       ".join(coq_member(m) for m in members),
         "; ".join("(%s, %s)" % (coq_str(m["name"]), m["conv"]) for m in members if m["kind"] == "normal"),
-        "; ".join(coq_str(n) for n in sigpos), "; ".join(coq_str(n) for n in sigkw)))
+        coq_bool(nba), "; ".join(coq_str(n) for n in sigpos), "; ".join(coq_str(n) for n in sigkw)))
 
 
 def coq_attrs(a):
@@ -654,7 +791,7 @@ def coq_inp(d):
 def pyconv(m, v):
     if m["ident"]:
         return v
-    if v is None and (m["nullty"] or m["def"] == ("val", None)):
+    if v is None and (m["nullty"] or m["unull"] or m["def"] == ("val", None)):
         return None
     return TYPES[m["type"]][1](v)
 
@@ -666,7 +803,7 @@ def same_value(a, b):
 def oracle(cls, members, d, outcome):
     """None if the property holds on this input, else (what, culprit member name or None)"""
     required = [m for m in members if m["kind"] == "normal" and m["field"] and m["param"] and m["def"] == ("none",)]
-    absent = [m["name"] for m in required if m["name"] not in d]
+    absent = [m["name"] for m in required if py_rd(m, d) is ABSENT]
     if absent:
         if outcome[0] == "missing" and outcome[1] == absent[0]:
             return None
@@ -676,17 +813,17 @@ def oracle(cls, members, d, outcome):
         return ("all required keys present: expected an instance, observed %s" % show(outcome), culprit_of(outcome))
     _, r1, r2 = outcome
     # a reference instance made by calling the constructor directly with the required arguments only
-    base = cls(**{m["name"]: pyconv(m, d[m["name"]]) for m in required})
+    base = cls(**{m["name"]: pyconv(m, py_rd(m, d)) for m in required})
     made = []
     for r in (r1, r2):
         for m in members:
             v = getattr(r, m["name"], UNSET)
             bv = getattr(base, m["name"], UNSET)
             if m["kind"] == "normal" and m["field"] and m["param"]:
-                if m["name"] in d:
-                    exp = pyconv(m, d[m["name"]])
+                if py_rd(m, d) is not ABSENT:
+                    exp = pyconv(m, py_rd(m, d))
                     if not same_value(v, exp):
-                        return ("field %s: key present with %r, expected %r, observed %r" % (m["name"], d[m["name"]], exp, v),
+                        return ("field %s: key present with %r, expected %r, observed %r" % (m["name"], py_rd(m, d), exp, v),
                                 m["name"])
                 elif m["def"][0] == "val":
                     if not same_value(v, m["def"][1]):
@@ -747,6 +884,10 @@ def show(outcome):
 def signature_of(prog, entry, timing, members, culprit, outcome):
     m = next((x for x in members if x["name"] == culprit), None)
     sig = {"kind": "other", "entry": entry, "outcome": outcome[0]}
+    if outcome[0] == "other" and outcome[1].startswith("NameError: name '") \
+            and outcome[1].split("'")[1] in _PEP695.values():
+        sig["kind"] = "pep695-alias-name-unbound"
+        return sig
     if m is not None and m["from_plain_base"]:
         sig["kind"] = "non-dataclass-base-annotation"
     elif m is not None and m["inherits_class_default"] and timing == "pre" and outcome[0] == "missing":
@@ -772,20 +913,24 @@ def make_program(rng, nmax):
 
 
 def inputs_for(rng, members, spec_types, max_keys):
-    """one input per subset of the member names (exhaustive up to max_keys names)"""
-    names = [m["name"] for m in members]
-    if len(names) > max_keys:
-        names = names[:max_keys]
-    by = {m["name"]: m for m in members}
-    for mask in range(1 << len(names)):
+    """one input per subset of the key universe = alias keys + member names (exhaustive up to max_keys keys;
+    alias keys come first so that truncation never drops them)"""
+    keys = []
+    for m in members:
+        if m.get("alias") and m["alias"] not in [k for k, _ in keys]:
+            keys.append((m["alias"], m))
+    for m in members:
+        if m["name"] not in [k for k, _ in keys]:
+            keys.append((m["name"], m))
+    keys = keys[:max_keys]
+    for mask in range(1 << len(keys)):
         d = {}
-        for i, n in enumerate(names):
+        for i, (k, m) in enumerate(keys):
             if mask >> i & 1:
-                m = by[n]
-                if m["kind"] == "normal" and n in spec_types:
-                    d[n] = sample_input_value(rng, m)
+                if m["kind"] == "normal" and m["name"] in spec_types:
+                    d[k] = sample_input_value(rng, m)
                 else:
-                    d[n] = 900 + rng.randrange(0, 9)      # a value no default has
+                    d[k] = 900 + rng.randrange(0, 9)      # a value no default has
         yield mask, d
 
 
@@ -796,12 +941,14 @@ def run(ctx: vlib.Ctx):
         "plus, in every run, a systematic sweep: every field type (int/float/str/bool/Any/List and their Optionals, "
         "with and without pass_through) x default region (falsy non-None, truthy, big = equal-but-not-identical, None, "
         "factory); values for present keys span explicit null, falsy/truthy/big values, values equal to the default "
-        "(same or other type); "
+        "(same or other type); type spellings Optional[X] / X | None / None | X / Union[None, X] / Annotated, Final and "
+        "PEP 695 wrappers of an Optional; aliases by field_options, Annotated Alias and Config.aliases with and without "
+        "allow_deserialization_not_by_alias, the key universe then holds alias keys and field names; "
         "for each entry point (from_dict, BasicDecoder) every subset of the member names as input keys, one random "
         "well-typed value assignment per subset; distinct = (layout shape, entry timing, key subset)")
     ctx.theorems("props/C07_bind.vo", [
         "C07_binding_partial", "C07_binding_post", "C07_binding", "C07_missing", "C07_null_wins",
-        "C07_positional_prefix", "C07_noninit_unread", "C07_factory_fresh",
+        "C07_positional_prefix", "C07_noninit_unread", "C07_sticky_irrelevant", "C07_factory_fresh",
         "C07_binding_refuted", "C07_noninit_refuted_plain_base"])
     ctx.trusted += [
         "Bind.bind/step/walk: model of CPython dataclass __init__ binding, default materialisation and factory call "
@@ -815,9 +962,12 @@ def run(ctx: vlib.Ctx):
         "(mashumaro never supplies InitVars; a required InitVar makes every from_dict raise TypeError)",
         "inputs are well typed for the field (null only for nullable fields; a null for a non-nullable int/float/list "
         "field is probed by the python oracle only: it must raise InvalidFieldValue); aliases, hooks, discriminators, "
-        "forbid_extra_keys and dialects are other properties",
+        "forbid_extra_keys and dialects are other properties; how an alias is resolved is C09 (taken as a fact here), "
+        "which key is then read and that a key holding null is present is modelled (Bind.rd)",
+        "fields typed by a PEP 695 alias always have a default in the generated programs (a required one hits the known "
+        "finding C07/pep695-alias-name-unbound, which is probed separately in every run)",
     ]
-    nprog = ctx.budget(62, 420)
+    nprog = ctx.budget(32, 300)
     nmax = ctx.budget(8, 10)
     lays: list[str] = []
     cases: list[str] = []
@@ -826,6 +976,7 @@ def run(ctx: vlib.Ctx):
     oracle_bad: set[int] = set()
     todo = spectrum_programs(ctx.rng)
     ctx.coverage["spectrum_programs"] = len(todo)
+    todo.append(pep695_probe())
     for pi in range(nprog + len(todo)):
         prog = todo[pi] if pi < len(todo) else make_program(ctx.rng, nmax)
         src = render(prog)
@@ -837,10 +988,11 @@ def run(ctx: vlib.Ctx):
                       "expected": "classes are created"}, {"kind": "class-creation", "exc": type(e).__name__})
             continue
         st = spec_types_of(prog)
-        info = {"prog": prog, "src": src, "mod": mod, "fails": 0}
+        spec = {"types": st, "aliases": prog.get("aliases", {}), "nba": bool(prog.get("nba"))}
+        info = {"prog": prog, "src": src, "mod": mod, "fails": 0, "spec": spec}
         progs.append(info)
         for entry, fn, timing in entries_of(prog, mod):
-            members, sigpos, sigkw = analyse(mod, st, timing)
+            members, sigpos, sigkw = analyse(mod, st, timing, prog.get("aliases"), prog.get("nba"))
             li = len(lays)
             lays.append(coq_lay(members, sigpos, sigkw))
             shape = tuple((m["kind"], m["field"], m["param"], m["kw"], m["def"][0], m["own"], m["ns"][0],
@@ -853,13 +1005,20 @@ def run(ctx: vlib.Ctx):
                           "plain-base" if not m["field"] else
                           ("kw_only" if m["kw"] else "positional") + "/" + m["def"][0]))
             for m in members:
+                if m["kind"] == "normal" and m["name"] in st:
+                    ctx.hist("type_spelling", SPELLING_CLASS[m["type"]] + ("/pass_through" if m["pass"] else ""))
+                    if m.get("alias"):
+                        ctx.hist("aliased_fields", "%s/%s" % (prog["aliases"][m["name"]][0],
+                                                              "not_by_alias" if m["nba"] else "alias-only"))
                 if m["kind"] == "normal" and m["field"] and m["param"]:
                     ctx.hist("default_spectrum", "%s/%s/%s" % (
                         region_of(m["def"]), "nullable-type" if m["nullty"] else "plain-type",
                         "identity" if m["ident"] else "converting"))
-            for mask, d in inputs_for(ctx.rng, members, st, nmax):
+            for mask, d in inputs_for(ctx.rng, members, st, ctx.budget(7, 9) if prog.get("sweep") else nmax):
                 for m in members:
-                    if m["name"] in d and d[m["name"]] is None and m["kind"] == "normal" and m["param"]:
+                    if m["kind"] == "normal" and m["param"] and m.get("alias") and d.get(m["alias"], 0) is None:
+                        ctx.hist("null_under_alias_key", "name key %s" % ("present" if m["name"] in d else "absent"))
+                    if m["kind"] == "normal" and m["param"] and py_rd(m, d) is None:
                         ctx.hist("explicit_null_against", "%s/%s" % (
                             region_of(m["def"]), "identity" if m["ident"] else "converting"))
                 outcome = run_real(fn, d, members)
@@ -877,35 +1036,38 @@ def run(ctx: vlib.Ctx):
                     rout = "RTypeError"
                 else:
                     rout = "ROther"
-                cases.append((li, "%s, %s" % (coq_inp(d), rout)))
-                index.append((len(progs) - 1, entry, timing, mask, d, members))
+                if not prog.get("oracle_only"):
+                    cases.append((li, "%s, %s" % (coq_inp(d), rout)))
+                    index.append((len(progs) - 1, entry, timing, mask, d, members))
                 # oracle
                 bad = oracle(mod.TARGET, members, d, outcome)
                 if bad is not None:
-                    oracle_bad.add(len(cases) - 1)
+                    if not prog.get("oracle_only"):
+                        oracle_bad.add(len(cases) - 1)
                     what, culprit = bad
                     sig = signature_of(prog, entry, timing, members, culprit, outcome)
                     info["fails"] += 1
                     if info["fails"] <= 3 or sig["kind"] == "other":
                         ctx.fail("%s(%r): %s" % (entry, d, what),
-                                 {"source": src, "entry": entry, "input": d, "observed": show(outcome), "expected": what},
+                                 {"source": src, "spec": spec, "entry": entry, "input": d, "observed": show(outcome),
+                                  "expected": what},
                                  sig)
             # oracle only (conversion failures are outside the Coq model): an explicit null for a field that is
             # NOT nullable (neither by type nor by a None default) and whose conversion rejects None must raise
             # InvalidFieldValue for that field - never be swallowed into None or the default, whatever the default is
             from mashumaro.exceptions import InvalidFieldValue
-            required_ok = {m["name"]: nonnull_input(ctx.rng, m) for m in members
+            required_ok = {key_of(m): nonnull_input(ctx.rng, m) for m in members
                            if m["kind"] == "normal" and m["field"] and m["param"] and m["def"] == ("none",)
                            and m["name"] in st}
             for m in members:
                 if not (m["kind"] == "normal" and m["field"] and m["param"] and m["name"] in st and not m["ident"]
-                        and not m["nullty"] and m["def"] != ("val", None) and not m["inherits_class_default"]
+                        and not m["nullty"] and not m["unull"] and m["def"] != ("val", None) and not m["inherits_class_default"]
                         and base_of(m["type"]) in ("int", "float", "List[int]")):
                     continue
                 if any(x["from_plain_base"] or x["inherits_class_default"] for x in members):
                     break                       # programs of the known findings fail earlier for their own reasons
                 d = dict(required_ok)
-                d[m["name"]] = None
+                d[key_of(m)] = None
                 ctx.count((shape, timing, "null-for-non-nullable", m["name"]))
                 ctx.hist("explicit_null_against", "%s/non-nullable" % region_of(m["def"]))
                 try:
@@ -919,7 +1081,7 @@ def run(ctx: vlib.Ctx):
                     obs = "%s: %s" % (type(e).__name__, e)
                 ctx.fail("%s(%r): null for the non-nullable field %s (default %s): expected InvalidFieldValue(%r), observed %s"
                          % (entry, d, m["name"], region_of(m["def"]), m["name"], obs),
-                         {"source": src, "entry": entry, "input": d, "observed": obs,
+                         {"source": src, "spec": spec, "entry": entry, "input": d, "observed": obs,
                           "expected": "InvalidFieldValue(%r)" % m["name"], "null_for_non_nullable": m["name"]},
                          {"kind": "null-for-non-nullable", "entry": entry})
             if len(ctx.coverage["samples"]) < 4:
@@ -1018,7 +1180,8 @@ def search_around(ctx, progs, index, bad):
                     sig = signature_of(info["prog"], entry, timing, members, culprit, outcome)
                     if sig["kind"] == "other":
                         ctx.fail("%s(%r): %s" % (entry, d2, what),
-                                 {"source": info["src"], "entry": entry, "input": d2, "observed": show(outcome),
+                                 {"source": info["src"], "spec": info["spec"], "entry": entry, "input": d2,
+                                  "observed": show(outcome),
                                   "expected": what}, sig)
                         return
 
@@ -1046,20 +1209,31 @@ def replay(rep: dict) -> int:
     from mashumaro.codecs.basic import BasicDecoder
     cls = mod.TARGET
     fn = cls.from_dict if rep["entry"] == "from_dict" else BasicDecoder(cls).decode
-    # truth from introspection; declared types are recovered from the annotations
-    st = {}
-    import typing_extensions
-    ns = {"Any": typing.Any, "Optional": typing.Optional, "List": typing.List}
-    by_type = [(eval(k, ns), k) for k in TYPES]
-    for n, t in typing_extensions.get_type_hints(cls).items():
-        if kind_of_hint(t) != "normal":
-            continue
-        for tt, k in by_type:
-            if t is tt or (t == tt and type(t) is type(tt)):
-                f = cls.__dataclass_fields__.get(n)
-                st[n] = (k, bool(f is not None and f.metadata.get("deserialize") is not None))
-                break
-    members, _, _ = analyse(mod, st, "post")
+    # truth from introspection; declared types / aliases come with the replay file, else from the annotations
+    spec = rep.get("spec")
+    aliases, nba = {}, False
+    if spec:
+        st = {k: tuple(v) for k, v in spec["types"].items()}
+        aliases = {k: tuple(v) for k, v in spec["aliases"].items()}
+        nba = spec["nba"]
+    else:
+        st = {}
+        import typing_extensions
+        by_type = []
+        for k in TYPES:
+            try:
+                by_type.append((eval(k, dict(mod.__dict__)), k))
+            except Exception:  # noqa: BLE001
+                pass
+        for n, t in typing_extensions.get_type_hints(cls, include_extras=True).items():
+            if kind_of_hint(t) != "normal":
+                continue
+            for tt, k in by_type:
+                if t is tt or (t == tt and type(t) is type(tt)):
+                    f = cls.__dataclass_fields__.get(n)
+                    st[n] = (k, bool(f is not None and f.metadata.get("deserialize") is not None))
+                    break
+    members, _, _ = analyse(mod, st, "post", aliases, nba)
     d = rep["input"]
     if rep.get("null_for_non_nullable"):
         from mashumaro.exceptions import InvalidFieldValue
